@@ -9,5 +9,5 @@ mkdir -p tests; cp $M/demo.rs tests/demo_verify.rs
 echo "== demo on clean tree"; cargo test --offline --test demo_verify 2>&1 | grep -E "^test result|error" | head -3
 git apply $M/patch.diff || { echo "PATCH DOES NOT APPLY"; exit 1; }
 echo "== existing tests with mutation"; cargo test --offline --lib 2>&1 | grep -E "^test result|error\[" | head -3; cargo test --offline --doc 2>&1 | grep -E "^test result|error\[" | head -3
-echo "== demo with mutation"; cargo test --offline --test demo_verify 2>&1 | grep -E "^test result|error\[" | head -3
+echo "== demo with mutation"; cargo test --offline --test demo_verify 2>&1 | grep -E "^test result|error\[|error: test failed|signal" | head -4
 git checkout -q -- . ; rm -f tests/demo_verify.rs; rmdir tests 2>/dev/null
